@@ -248,10 +248,14 @@ def decodeCuwp (cfg : RichCfg) (r : List Nat) (i : Nat) : RCuwp :=
   ⟨r.getD 3 0, r.getD 4 0, r.getD 5 0, r.getD 6 0, r.getD 7 0, uf.take 5, vs, vu, uf.getD 5 false,
    r.getD 9 0, some (i + 1)⟩
 
+/-- a unit-property record is a placeholder when every field the rich layer keeps is zero (the owner
+byte, field 2, is not kept: it is always written as 0) -/
+def cuwpRecUnused (r : List Nat) : Bool := (r.set 2 0).all (· == 0)
+
 def decodeUprp (cfg : RichCfg) (recs : List (List Nat)) : List RCuwp :=
   let rec go : List (List Nat) → Nat → List RCuwp
     | [], _ => []
-    | r :: rs, i => if r.all (· == 0) then go rs (i + 1) else decodeCuwp cfg r i :: go rs (i + 1)
+    | r :: rs, i => if cuwpRecUnused r then go rs (i + 1) else decodeCuwp cfg r i :: go rs (i + 1)
   go recs 0
 
 def cuwpById (ctx : DecCtx) (id : Nat) : Option RCuwp := ctx.cuwps.reverse.find? (fun c => c.idx == some id)
